@@ -180,6 +180,9 @@ def cmd_check(prop, tier):
         print(f"HARNESS-ERROR: run idx {idx}: {h[:600]}")
     if agg.harness:
         rc = max(rc, 2)
+    guard_aborts = sum(v for k, v in agg.aborts.items() if k != "dependency_abort")
+    if agg.runs and guard_aborts > 0.2 * agg.runs:
+        print(f"COVERAGE-WARNING: {guard_aborts} of {agg.runs} runs were ended early by guards {agg.aborts}: another property is broken on this tree (or the harness is); this check explored little")
     samples = _sample_runs(prop, seed, tier)
     extra = None
     if agg.sys_total:
